@@ -59,60 +59,110 @@ func userCalls(c *core.Ctx) []userCall {
 	return out
 }
 
-// iterationRunner returns the declared function of internal/workers that (possibly through a function
-// literal) invokes the scenario's RunFn, the dynamic call, and the call in the runner's own frame
-// that leads to it.
-func iterationRunner(c *core.Ctx) (runner *ssa.Function, body ssa.CallInstruction, frameCall ssa.CallInstruction) {
-	for _, u := range userCalls(c) {
-		if u.Kind != "RunFn" || core.RelPkg(u.Fn) != "internal/workers" {
+// flatDepth is how many helper levels the rules look through (virtual inlining, analysis P1).
+const flatDepth = 3
+
+// userRunner finds, by role, the function of internal/workers that both (through helpers / function literals)
+// invokes a user function of the given kind and records its outcome with one of the recorders, and is minimal
+// with that property. It returns the function, the user-call event and the call in its own frame leading to it.
+func userRunner(c *core.Ctx, kind string, recorder func(*ssa.Function) bool) (runner *ssa.Function, body an.Event, frameCall ssa.CallInstruction) {
+	isUser := func(call ssa.CallInstruction, t *ssa.Function) bool {
+		if t != nil {
+			return false
+		}
+		n := an.DynCallType(call)
+		return n != nil && an.IsNamed(n, testingPkg, kind)
+	}
+	type cand struct {
+		fn   *ssa.Function
+		body an.Event
+	}
+	var cands []cand
+	for _, fn := range c.AllFuncs {
+		if core.RelPkg(fn) != "internal/workers" || fn.Parent() != nil {
 			continue
 		}
-		if runner != nil {
-			panic(core.AnchorError{What: "iteration runner is ambiguous (more than one RunFn call in internal/workers)"})
+		bodies := an.FlatCalls(fn, flatDepth, isUser)
+		if len(bodies) == 0 {
+			continue
 		}
-		runner = an.Outermost(u.Fn)
-		body = u.Call
-		frameCall = u.Call
-		for f := u.Fn; f != runner; f = f.Parent() {
-			// the call of the literal in its parent
-			var found ssa.CallInstruction
-			for _, call := range an.AllCalls(f.Parent()) {
-				if an.Callee(call) == f {
-					found = call
-				}
+		recs := an.FlatCalls(fn, flatDepth, func(_ ssa.CallInstruction, t *ssa.Function) bool { return t != nil && recorder(t) })
+		if len(recs) == 0 {
+			continue
+		}
+		if len(bodies) > 1 {
+			panic(core.AnchorError{What: kind + " is invoked at more than one place under " + core.FuncName(fn)})
+		}
+		cands = append(cands, cand{fn, bodies[0]})
+	}
+	// minimal: drop candidates that (flat-)call another candidate
+	var best *cand
+	for i := range cands {
+		callsOther := false
+		for j := range cands {
+			if i == j {
+				continue
 			}
-			if found == nil {
-				panic(core.AnchorError{What: "function literal around the RunFn call is not invoked in place"})
+			other := cands[j].fn
+			if len(an.FlatCalls(cands[i].fn, flatDepth, func(_ ssa.CallInstruction, t *ssa.Function) bool { return t == other })) > 0 {
+				callsOther = true
 			}
-			frameCall = found
+		}
+		if !callsOther {
+			if best != nil {
+				panic(core.AnchorError{What: "more than one function runs a " + kind + " and records its outcome"})
+			}
+			best = &cands[i]
 		}
 	}
-	if runner == nil {
-		panic(core.AnchorError{What: "iteration runner (function of internal/workers calling a testing.RunFn)"})
+	if best == nil {
+		panic(core.AnchorError{What: "function of internal/workers that runs a testing." + kind + " and records its outcome"})
 	}
-	return
+	root, _ := best.body.Root().(ssa.CallInstruction)
+	return best.fn, best.body, root
+}
+
+// iterationRunner: the function that runs one iteration body and records it (ActiveScenario.Run today).
+func iterationRunner(c *core.Ctx) (runner *ssa.Function, body ssa.CallInstruction, frameCall ssa.CallInstruction) {
+	fn, ev, fc := userRunner(c, "RunFn", func(t *ssa.Function) bool { return isStatsRecord(t) || isMetricsIter(t) })
+	return fn, ev.Call(), fc
+}
+
+// iterationBodyT is the test handle the iteration body runs with, as a value of the runner's frame.
+func iterationBodyT(c *core.Ctx) ssa.Value {
+	_, ev, _ := userRunner(c, "RunFn", func(t *ssa.Function) bool { return isStatsRecord(t) || isMetricsIter(t) })
+	return ev.Translate(ev.Call().Common().Args[0])
 }
 
 func setupRunner(c *core.Ctx) (runner *ssa.Function, body ssa.CallInstruction, frameCall ssa.CallInstruction) {
-	for _, u := range userCalls(c) {
-		if u.Kind != "ScenarioFn" || core.RelPkg(u.Fn) != "internal/workers" {
-			continue
+	fn, ev, fc := userRunner(c, "ScenarioFn", func(t *ssa.Function) bool { return isMethod(t, metricsPkg, "Metrics", "RecordSetupResult") })
+	return fn, ev.Call(), fc
+}
+
+// recEvent is one outcome-recording call seen from a root function, with its arguments in the root's frame.
+type recEvent struct {
+	Kind   string // "stats" | "metrics" | "setup"
+	Ev     an.Event
+	Result ssa.Value
+	Dur    ssa.Value
+}
+
+func recordEvents(root *ssa.Function) []recEvent {
+	var out []recEvent
+	for _, e := range an.FlatCalls(root, flatDepth, func(_ ssa.CallInstruction, t *ssa.Function) bool {
+		return t != nil && (isStatsRecord(t) || isMetricsIter(t) || isMethod(t, metricsPkg, "Metrics", "RecordSetupResult"))
+	}) {
+		call := e.Call()
+		kind := "stats"
+		if isMetricsIter(an.Callee(call)) {
+			kind = "metrics"
+		} else if !isStatsRecord(an.Callee(call)) {
+			kind = "setup"
 		}
-		runner = an.Outermost(u.Fn)
-		body = u.Call
-		frameCall = u.Call
-		for f := u.Fn; f != runner; f = f.Parent() {
-			for _, call := range an.AllCalls(f.Parent()) {
-				if an.Callee(call) == f {
-					frameCall = call
-				}
-			}
-		}
+		args := call.Common().Args
+		out = append(out, recEvent{Kind: kind, Ev: e, Result: e.Translate(resultArg(call)), Dur: e.Translate(args[len(args)-1])})
 	}
-	if runner == nil {
-		panic(core.AnchorError{What: "setup runner (function of internal/workers calling a testing.ScenarioFn)"})
-	}
-	return
+	return out
 }
 
 // resultConst returns the string value of a metrics.ResultType constant.
@@ -178,4 +228,47 @@ func stripCaret(s string) string {
 		}
 	}
 	return string(out)
+}
+
+// workerRun is one place where a pool worker goroutine (the root) runs an iteration, possibly through helpers.
+type workerRun struct {
+	Worker *ssa.Function // the function started with `go`
+	Run    an.Event      // the call of the iteration runner
+}
+
+// workerRuns lists the runner calls seen from every goroutine root of the module; stray lists static call
+// sites of the runner that no worker root covers.
+func workerRuns(c *core.Ctx, runner *ssa.Function) (runs []workerRun, stray []ssa.CallInstruction) {
+	covered := map[ssa.Instruction]bool{}
+	seenRoot := map[*ssa.Function]bool{}
+	for _, fn := range c.AllFuncs {
+		for _, g := range an.GoSites(fn) {
+			t := an.Callee(g)
+			if t == nil || seenRoot[t] || !core.InModule(t) {
+				continue
+			}
+			seenRoot[t] = true
+			for _, e := range an.FlatCalls(t, flatDepth, func(_ ssa.CallInstruction, callee *ssa.Function) bool { return callee == runner }) {
+				runs = append(runs, workerRun{t, e})
+				covered[e.Instr] = true
+			}
+		}
+	}
+	for _, s := range an.CallSitesOf(c, runner) {
+		if !covered[s] {
+			stray = append(stray, s)
+		}
+	}
+	return
+}
+
+// eventsBefore finds the events of the worker satisfying pred that precede ev on every path.
+func eventsBefore(worker *ssa.Function, ev an.Event, pred func(ssa.CallInstruction, *ssa.Function) bool) []an.Event {
+	var out []an.Event
+	for _, e := range an.FlatCalls(worker, flatDepth, pred) {
+		if an.Before(e, ev) {
+			out = append(out, e)
+		}
+	}
+	return out
 }
